@@ -11,6 +11,9 @@ run(fn, pkg_dir, target, fault_at=None) executes fn() and returns a Trace:
                 call into repository / json code while the target is open for writing)
   .lines        for each event index the (file, function, line) executed  (fault-free runs only)
 
+granularity="opcode" counts and injects at every bytecode instruction instead of every source line (about ten times as
+many fault points: also between the evaluation of an argument and the call it feeds, inside expressions, ...).
+
 fault_at=k raises InjectedFault just before the k-th line event executes (the exception propagates into the traced
 frame exactly like an error raised by that line; tracing is switched off afterwards)."""
 import builtins
@@ -62,7 +65,7 @@ class _Proxy:
         return iter(self._f)
 
 
-def run(fn, pkg_dir, target, fault_at=None, keep_lines=False):
+def run(fn, pkg_dir, target, fault_at=None, keep_lines=False, granularity="line"):
     pkg_dir = os.path.realpath(pkg_dir) + os.sep
     target_real = os.path.realpath(target)
     tr = Trace()
@@ -79,7 +82,9 @@ def run(fn, pkg_dir, target, fault_at=None, keep_lines=False):
         return r
 
     def local(frame, event, arg):
-        if event == "line" and state["armed"]:
+        if granularity == "opcode":
+            frame.f_trace_opcodes = True
+        if event == granularity and state["armed"]:
             state["n"] += 1
             tr.events = state["n"]
             if keep_lines:
@@ -96,6 +101,9 @@ def run(fn, pkg_dir, target, fault_at=None, keep_lines=False):
             if state["open"] and kind:
                 tr.log.append((state["n"], "call-in-window", "%s:%s" % (os.path.basename(frame.f_code.co_filename), frame.f_code.co_name)))
             if kind == 1:
+                if granularity == "opcode":
+                    frame.f_trace_opcodes = True
+                    frame.f_trace = local      # (3.12: opcode events need the local tracer installed explicitly)
                 return local
         return None
 
@@ -139,7 +147,8 @@ def run(fn, pkg_dir, target, fault_at=None, keep_lines=False):
 
     builtins.open, io.open, os.replace, os.rename = my_open, my_open, my_replace, my_rename
     old_trace, old_prof = sys.gettrace(), sys.getprofile()
-    sys.setprofile(profiler)
+    if granularity != "opcode":       # CPython 3.12 delivers no opcode events while a profile function is installed
+        sys.setprofile(profiler)
     sys.settrace(tracer)
     try:
         fn()
